@@ -28,6 +28,14 @@ func (e *BE) contractFor(fn *ssa.Function) *Contract {
 	if g.Origin() != nil {
 		g = g.Origin()
 	}
+	if ip := e.inferredPost[g]; ip != nil {
+		// inferred size postcondition of a private helper (bounds4.go inferPost)
+		nc := &Contract{Note: ip.Note, PostOK: ip.PostOK}
+		if c != nil {
+			nc.Pre = c.Pre
+		}
+		c = nc
+	}
 	extra := e.inferred[g]
 	if len(extra) == 0 {
 		return c
@@ -70,7 +78,7 @@ func (e *BE) inferPre(cone []*ssa.Function, module []*ssa.Function) []string {
 			allInstrs(g, func(i ssa.Instruction) {
 				var callee *ssa.Function
 				if c, ok := i.(ssa.CallInstruction); ok {
-					callee = c.Common().StaticCallee()
+					callee = e.c.calleeOf(c.Common())
 					if cv, ok := i.(*ssa.Call); ok && callee != nil {
 						sites[callee] = append(sites[callee], cv)
 						callerOf[cv] = g
@@ -485,12 +493,16 @@ func (st *solveState) callFacts(call *ssa.Call) {
 		return
 	}
 	e := st.fc.e
-	callee := call.Call.StaticCallee()
+	callee := e.c.calleeOf(&call.Call)
 	var con *Contract
 	if callee != nil {
 		con = e.contractFor(callee)
 	}
-	if con == nil {
+	if con == nil || (!con.Axiom && len(con.Post)+len(con.PostOK)+len(con.Locality) == 0) {
+		// no postcondition known (at most inferred preconditions): summarise the helper's exits instead
+		if callee != nil && !st.okCall[call] && st.exitSummary(call, callee) {
+			st.okCall[call] = true
+		}
 		st.seenCall[call] = true
 		return
 	}
@@ -577,6 +589,19 @@ func (st *solveState) callOK(call *ssa.Call) bool {
 	}
 	last := tup.Len() - 1
 	if last < 0 {
+		return false
+	}
+	if isBoolType(tup.At(last).Type()) {
+		// helpers with a bool success flag: ok is known true on the current path
+		ex := extractOf(call, last)
+		if ex == nil {
+			return false
+		}
+		for _, a := range st.fs.atoms {
+			if a.Bool && a.Truth && (a.V == ssa.Value(ex) || st.substVal(a.V) == ssa.Value(ex)) {
+				return true
+			}
+		}
 		return false
 	}
 	if !types.Identical(tup.At(last).Type(), types.Universe.Lookup("error").Type()) {
@@ -800,13 +825,13 @@ func (st *solveState) domCalls(at *ssa.BasicBlock) {
 			continue
 		}
 		for _, ins := range b.Instrs {
-			if c, ok := ins.(*ssa.Call); ok && c.Call.StaticCallee() != nil {
+			if c, ok := ins.(*ssa.Call); ok && st.fc.e.c.calleeOf(&c.Call) != nil {
 				st.pendingCalls = append(st.pendingCalls, c)
 			}
 		}
 	}
 	for _, ins := range at.Instrs {
-		if c, ok := ins.(*ssa.Call); ok && c.Call.StaticCallee() != nil {
+		if c, ok := ins.(*ssa.Call); ok && st.fc.e.c.calleeOf(&c.Call) != nil {
 			// calls in the same block: their facts only mention their own results unless the error is known nil,
 			// which can only be established in a later block
 			st.pendingCalls = append(st.pendingCalls, c)
@@ -827,6 +852,13 @@ func (st *solveState) solve(at *ssa.BasicBlock, depth int) bool {
 		vars := map[int]bool{}
 		for v := range st.goal.L.T {
 			vars[v] = true
+		}
+		// a known disequality (n != 0) is a fact about a value that may be DEFINED from the goal's variables
+		// (n := len(t) / size): its definition is what connects it to the goal
+		for _, nq := range st.fs.neqs {
+			for v := range st.substLin(nq).T {
+				vars[v] = true
+			}
 		}
 		// transitive cone through current facts
 		for changed := true; changed; {
@@ -894,6 +926,26 @@ func (st *solveState) solve(at *ssa.BasicBlock, depth int) bool {
 		cone := map[int]bool{}
 		for v := range st.goal.L.T {
 			cone[v] = true
+		}
+		for changed := true; changed; {
+			changed = false
+			for _, q := range st.fs.ineqs {
+				hit := false
+				for v := range q.L.T {
+					if cone[v] {
+						hit = true
+						break
+					}
+				}
+				if hit {
+					for v := range q.L.T {
+						if !cone[v] {
+							cone[v] = true
+							changed = true
+						}
+					}
+				}
+			}
 		}
 		for i, nq := range st.fs.neqs {
 			l := st.substLin(nq)
@@ -1290,7 +1342,7 @@ func (e *BE) verifyFunc(fn *ssa.Function) []Oblig {
 			case *ssa.Panic:
 				obs = append(obs, Oblig{Kind: "panic", At: x, Desc: "explicit panic", OK: false, Why: "explicit panic reachable"})
 			case *ssa.Call:
-				callee := x.Call.StaticCallee()
+				callee := e.c.calleeOf(&x.Call)
 				if callee == nil {
 					continue
 				}
@@ -1373,12 +1425,9 @@ func (e *BE) verifyReturn(fc *fnCtx, ret *ssa.Return, obs *[]Oblig) {
 	if len(con.PostOK) > 0 {
 		rs := sig.Results()
 		errv := ret.Results[rs.Len()-1]
-		if knownNonNil(errv) {
+		extra, feasible := okExtra(errv) // err == nil, or ok == true for helpers with a bool success flag
+		if !feasible {
 			return
-		}
-		extra := &factSet{}
-		if !isNilConst(errv) {
-			extra.atoms = append(extra.atoms, Atom{V: errv, IsNil: true})
 		}
 		var goals []Ineq
 		for _, p := range con.PostOK {
@@ -1469,8 +1518,8 @@ func (e *BE) derivesFrom(v ssa.Value, p *ssa.Parameter, depth int) bool {
 			}
 		}
 	case *ssa.Extract:
-		if call, ok := x.Tuple.(*ssa.Call); ok && len(call.Call.Args) > 0 && call.Call.StaticCallee() != nil {
-			if con := e.contractFor(call.Call.StaticCallee()); con != nil {
+		if call, ok := x.Tuple.(*ssa.Call); ok && len(call.Call.Args) > 0 && e.c.calleeOf(&call.Call) != nil {
+			if con := e.contractFor(e.c.calleeOf(&call.Call)); con != nil {
 				for _, lc := range con.Locality {
 					if lc.Res == x.Index {
 						return e.derivesFrom(call.Call.Args[lc.Param], p, depth+1)
